@@ -2,6 +2,8 @@
 mod dom;
 mod errmap;
 mod ps;
+mod ev;
+mod rr;
 mod diff;
 
 fn main() {
